@@ -630,7 +630,7 @@ func (e *asEngine) reset(fixedLaunch bool) string {
 	e.s.Coarse = true
 	e.s.Watchdog = 3 * time.Second
 	e.s.IsSpawn = func(site string) bool {
-		return site == "mb.enq.go" || site == "mb.resume.go" || site == "sys.guardian.go" || site == "ctx.pipe.go" || site == "ctx.entrust.go"
+		return site == "mb.enq.go" || site == "mb.resume.go" || site == "mb.release.go" || site == "sys.guardian.go" || site == "ctx.pipe.go" || site == "ctx.entrust.go"
 	}
 	e.s.IsExit = func(site string) bool { return site == "mb.proc.exit" || site == "ctx.pipe.exit" || site == "exit" }
 	e.s.Filter = func(site string, obj any) bool {
